@@ -279,6 +279,9 @@ class Sim:
         self.received: list = []
         self.status: list = []
         self.recv_after_close_returned = 0
+        self.closing_from_callback = False
+        self._reply_msg = None
+        self.replies_sent = 0
         self.callbacks_replaced = False
         self.old_cb_calls_after_replacement = 0
         self.new_status_cb_calls = 0
@@ -387,6 +390,10 @@ class Sim:
             await asyncio.sleep(0.3)
         if self.status_cb_mode == "slow_closed" and state.name == "CLOSED":
             await asyncio.sleep(0.3)
+        if self.status_cb_mode == "close_on_disconnected" and state.name == "DISCONNECTED" and not self.closing_from_callback:
+            # the application gives up at the first loss: it calls close() from inside the status callback
+            self.closing_from_callback = True
+            await self.call("close")
 
     async def _on_receive(self, msg, _new=False):
         if self.callbacks_replaced and not _new:
@@ -401,6 +408,13 @@ class Sim:
             raise RuntimeError("receive callback failure (injected)")
         if mode == "slow":
             await asyncio.sleep(0.02)
+        if mode == "reply":
+            # the application answers from inside its receive callback (re-entrancy: callback -> client.send)
+            from .checks.c13 import make_send_message
+            if self._reply_msg is None:
+                self._reply_msg = make_send_message(self.kind)
+            self.replies_sent += 1
+            await self.client.send(self._reply_msg)
 
     async def heartbeat(self):
         while True:
